@@ -103,7 +103,23 @@ pub fn is_query(name: &str) -> bool {
 
 fn run_any<Ix: IndexType>(directed: bool, ops: &[GOp], out: &mut Out) {
     let mut g: AnyG<Ix> = if directed { AnyG::D(Graph::default()) } else { AnyG::U(Graph::default()) };
+    let mut snap_d: Option<Gr<Directed, Ix>> = None;
+    let mut snap_u: Option<Gr<Undirected, Ix>> = None;
     for o in ops {
+        if o.0 == "snapshot" || o.0 == "clone_from" {
+            // keep a clone; later overwrite it through Clone::clone_from and go on with it
+            if o.0 == "snapshot" { match &g { AnyG::D(x) => snap_d = Some(x.clone()), AnyG::U(x) => snap_u = Some(x.clone()) } }
+            else {
+                g = match g {
+                    AnyG::D(x) => { let mut h = snap_d.take().unwrap_or_default(); h.clone_from(&x); AnyG::D(h) }
+                    AnyG::U(x) => { let mut h = snap_u.take().unwrap_or_default(); h.clone_from(&x); AnyG::U(h) }
+                };
+            }
+            let mut v = vec!["unit".to_string()];
+            match catch_unwind(AssertUnwindSafe(|| match &g { AnyG::D(x) => battery(x), AnyG::U(x) => battery(x) })) { Ok(b) => v.extend(b), Err(_) => v.push("battery-panic".into()) }
+            out.obs_lines(&v);
+            continue;
+        }
         if o.0 == "into_edge_type" {
             g = match g { AnyG::D(x) => AnyG::U(x.into_edge_type()), AnyG::U(x) => AnyG::D(x.into_edge_type()) };
             let mut v = vec!["unit".to_string()];
@@ -226,6 +242,10 @@ pub fn gen(seed: u64, n: usize, out: &mut Out) {
                     }
                 }
             }
+        }
+        if r.chance(30) && ops.len() > 6 && !ops.iter().any(|o| o.0 == "into_edge_type") {
+            let i = 1 + r.below(ops.len() / 2); ops.insert(i, ("snapshot".into(), vec![]));
+            let j = i + 2 + r.below(ops.len() - i - 2); ops.insert(j, ("clone_from".into(), vec![]));
         }
         run_case(id, &[directed as i64, 0, cap, capcheck, ixc], &ops, out);
     }
